@@ -371,9 +371,11 @@ func (b *ByzPeer) Handle(id types.Specifier, s *gateway.Stream) {
 		r.Blocks, r.Remaining = blocks, rem
 		s.WriteResponse(r)
 		if hangup && applied {
-			// deliver, then hang up before the receiver gets round to judging it
-			s.Close()
-			time.Sleep(300 * time.Microsecond)
+			// deliver, then hang up before the receiver gets round to judging it.
+			// "Delivered" must be certain (a connection closed too early can
+			// swallow the answer): the requester closes the stream once it has
+			// read the response, which ends this read; only then the liar hangs up
+			s.ReadRequest(&gateway.RPCSendV2Blocks{})
 			b.CloseConns()
 		}
 
